@@ -134,6 +134,7 @@ def run_c05_tree(desc, seed):
         if len(set(vec)) == 1:
             continue
         specs.append(("max_dims", vec, {i + 1: vec[i] for i in range(N - 1)}))
+        specs.append(("max_dims-above-constructor-value", vec, {i + 1: vec[i] for i in range(N - 1)}))
         specs.append(("temp-list", vec, {i + 1: vec[i] for i in range(N - 1)}))
     for thr in (0.5, 0.1, 1e-2):
         specs.append(("threshold", thr, None))
@@ -147,8 +148,8 @@ def run_c05_tree(desc, seed):
             elif style == "temp-int":
                 t.compress_config = CompressConfig(CompressCriteria.fixed, max_bonddim=64)
                 temp = payload
-            elif style == "max_dims":
-                t.compress_config = CompressConfig(CompressCriteria.fixed, max_bonddim=64)
+            elif style in ("max_dims", "max_dims-above-constructor-value"):
+                t.compress_config = CompressConfig(CompressCriteria.fixed, max_bonddim=64 if style == "max_dims" else 1)
                 t.compress_config.max_dims = np.array([1] + list(payload) + [1])
             elif style == "temp-list":
                 t.compress_config = CompressConfig(CompressCriteria.fixed, max_bonddim=64)
